@@ -10,6 +10,7 @@ import EaselModel.Weights.Mx
 import EaselModel.Weights.BlosumPerm
 import EaselModel.Weights.Rounding
 import EaselModel.Weights.FindMin
+import EaselModel.Weights.FilterOrder
 /-! # C16 — sequence weights, identity filtering and clustering follow their definitions
 
   Theorems about the `ℚ` instance of the executable model `EaselModel.Weights` (the `Float` instance of the same
@@ -337,5 +338,21 @@ example : lenSpec (Mode.digital Abc.amino) [20, 28] = 0 := by decide
 example : ([3, 1, 2, 0] : List Nat).Nodup := by decide
 example : Abc.amino.K ≤ Abc.amino.Kp ∧ Abc.dna.K ≤ Abc.dna.Kp := by decide
 example : ([[65, 65], [65, 67]] : List Row) ≠ [] ∧ ([[65, 65], [65, 67]] : List Row).length ≠ 1 := by decide
+
+/-- the filter prefers what comes first in the preference order: a dropped candidate is linked to a row that was tried
+    before it and kept (any order, any link function) -/
+theorem idFilter_dropped_by_earlier (link : Nat → Nat → Bool) (pre post : List Nat) (r : Nat)
+    (h : r ∉ filterGreedy link (pre ++ r :: post) []) :
+    ∃ k ∈ filterGreedy link pre [], link r k = true ∧ k ∈ filterGreedy link (pre ++ r :: post) [] :=
+  filterGreedy_dropped_by_earlier link pre post r h
+
+/-- text mode ("keep the earlier sequence and discard the later"): a dropped row reaches the threshold with a kept row
+    of smaller index -/
+theorem idFilterText_keeps_earlier (maxid : ℚ) (rows : List Row) (r : Nat) (hr : r < rows.length)
+    (h : r ∉ idFilterText maxid rows) :
+    ∃ k ∈ idFilterText maxid rows, k < r ∧ maxid ≤ pid (α := ℚ) Mode.text (rows.getD r []) (rows.getD k []) :=
+  idFilterText_dropped_by_earlier maxid rows r hr h
+
+example : (1 : Nat) ∉ filterGreedy (fun x y => (x + y) % 2 == 0) ([3] ++ 1 :: [2, 0]) [] := by decide
 
 end EaselModel.Props.C16
